@@ -1233,3 +1233,35 @@ Example empty_name_enters_by_lookup :
   let st := set_names init [("pub"%string, 1)] [] in
   In (""%string, 1) (s_n2r (fst (step ex_world st (Msg CA 1 0 (MStr "getReferenceByName") [ABytes (MStr "pub")])))).
 Proof. vm_compute. auto. Qed.
+
+(* ---------- round 7: class DEFINITIONS (metaclass RemoteCopyClass.__init__, translated: metaclass_registers) *)
+(* a class that opts out of being received -- copytype = None, copytype = "" -- or whose definition fails (no copytype) amounts to
+   no registration at all, whatever its typeToCopy, whatever registry it names *)
+Theorem optout_class_not_registered : forall ttc priv em cls,
+  define_class CtNone ttc priv em cls = [] /\ define_class CtAbsent ttc priv em cls = [] /\
+  define_class (CtStr ""%string) ttc priv em cls = [].
+Proof. intros. split; [|split]; reflexivity. Qed.
+
+(* a class definition registers the class under its (non-empty) copytype and under nothing else -- in particular not under
+   its typeToCopy -- and in the registry it names *)
+Theorem class_definition_registers_copytype_only : forall ct ttc priv em cls e,
+  In e (define_class ct ttc priv em cls) ->
+  exists n, ct = CtStr n /\ n <> ""%string /\ e = (if priv then RegisterCopyPriv n cls em else RegisterCopy n cls).
+Proof.
+  intros ct ttc priv em cls e H. unfold define_class, metaclass_registers in H.
+  destruct ct as [| |s]; cbn [In] in H; try contradiction.
+  destruct s as [|a s']; cbn [str_truthy In] in H; try contradiction.
+  destruct H as [H|H]; [|contradiction].
+  exists (String a s'). split; [reflexivity|]. split; [discriminate|]. symmetry. exact H.
+Qed.
+
+(* so an opted-out class leaves every state as it is *)
+Theorem optout_class_inert : forall w st ttc priv em cls,
+  run w st (define_class CtNone ttc priv em cls) = (st, []).
+Proof. intros. reflexivity. Qed.
+
+Example ex_define_class_registers :
+  define_class (CtStr "my.rc") (Some "my.sent-as"%string) false false 1 = [RegisterCopy "my.rc" 1] /\
+  define_class (CtStr "my.rc") None true true 2 = [RegisterCopyPriv "my.rc" 2 true] /\
+  define_class CtNone (Some "my.sent-as"%string) false false 1 = [].
+Proof. vm_compute. auto. Qed.
